@@ -32,6 +32,7 @@ type C03Plan struct {
 	Stale    bool      `json:"stale"`  // ingest: damaged table index / profile left under the table's key are overwritten by a re-ingest
 	KeyCols  []int     `json:"key_cols,omitempty"` // composite key: column indices in declared key order (overrides the single id key)
 	Huge     bool      `json:"huge,omitempty"`     // ingest only: N may exceed 1024 blocks
+	DupEdge  bool      `json:"dup_edge,omitempty"` // ingest: the input repeats the lines whose keys end / start a block (positions 254, 255, 509, 510 in key order)
 }
 
 var c03Sizes = []int{0, 1, 2, 254, 255, 256, 509, 510, 511, 765, 766}
@@ -49,6 +50,7 @@ func init() {
 			}
 			p.DupAt = r.Intn(800)
 			p.Stale = r.Chance(0.25)
+			p.DupEdge = r.Chance(0.3)
 			if r.Chance(0.4) {
 				p.NCols = max(p.NCols, r.Range(2, 5))
 				p.KeyCols = r.Perm(p.NCols)[:r.Range(2, min(4, p.NCols))]
@@ -128,6 +130,13 @@ func execC03(t *testing.T, raw json.RawMessage, res *Result) {
 		rows = append(rows, make([]string, p.NCols))
 	}
 	rows = NormaliseCSV(cols, DedupeByKey(cols, pk, rows))
+	input := rows
+	if p.DupEdge && p.Producer == "ingest" && len(rows) >= 255 && !p.Huge {
+		// repeated lines of the rows that end or start a block: the duplicate is dropped, the
+		// block's first key in the table index must still be the first row actually stored
+		input = withEdgeDuplicates(cols, pk, rows)
+		res.probe("duplicate_lines_at_block_edges", 1)
+	}
 	w := &World{}
 	st := NewStore("L", w)
 	st.Monitor = MonitorC06
@@ -135,7 +144,7 @@ func execC03(t *testing.T, raw json.RawMessage, res *Result) {
 	checkStore := st
 	switch p.Producer {
 	case "ingest":
-		run := RunIngest(t, st, CSVText(cols, rows, ','), pk, p.Cfg)
+		run := RunIngest(t, st, CSVText(cols, input, ','), pk, p.Cfg)
 		if bubbleProblems(res, run.Out, "ingest") {
 			return
 		}
